@@ -13,4 +13,6 @@ def check(ctx, rep):
     from ..rules import eff as _eff
     _eff.eff_1(ctx, rep, only=[('parso/grammar.py', 'Grammar.parse')], minimum=20)     # no parser state outlives a parse: a valid sentence parses the same after any history
     rep.assume('parso/pgen2/generator.py builds the tables the grammar text describes (see C08 for its structural part)')
+    from ..rules import rxr as _src1
+    _src1.src_1(ctx, rep)       # the source text is only decoded and cut into lines on its way to the tokenizer
     rep.note('Not decided: equality of the returned tree with the derivation (run-time behaviour of the engine).')
